@@ -204,13 +204,13 @@ class Impl:
             self.tokens[key] = tok
         return tok
 
-    def xpath(self, pname: str, v: str, expr: str, variables: dict):
+    def xpath(self, pname: str, v: str, expr: str, variables: dict, timezone=None):
         """-> ('ok', value) | ('err', text)"""
         tok = self.token(pname, v, expr)
         if isinstance(tok, BaseException):
             return 'err', err_text(tok)
         try:
-            r = tok.evaluate(self.XPathContext(self.root, variables=variables))
+            r = tok.evaluate(self.XPathContext(self.root, variables=variables, timezone=timezone))
         except Exception as e:
             return 'err', err_text(e)
         return 'ok', r
@@ -1365,6 +1365,271 @@ def expected_date_canonical(t: str, s: str):
     return None if mins is None else body + tz_text(mins)
 
 
+# ------------------------------------------------------------------------------ value-derivation histories
+HIST_NEW = {
+    'dateTime': ['2000-01-01T12:00:00', '1999-12-31T23:59:59.5', '2024-02-29T00:00:00Z', '2000-06-15T08:30:00+05:30',
+                 '1970-01-01T00:00:00-00:30', '0044-03-15T12:00:00', '2000-01-01T24:00:00', '9998-12-31T23:00:00-14:00'],
+    'date': ['2000-01-01', '1999-12-31Z', '2024-02-29+14:00', '2000-03-01-05:00', '0044-03-15'],
+    'time': ['12:00:00', '23:59:59.5', '00:00:00Z', '08:30:00+05:30', '12:00:00-00:30', '24:00:00'],
+    'gYear': ['2000', '1999Z'], 'gYearMonth': ['2000-02'], 'gMonth': ['--02+01:00'], 'gMonthDay': ['--02-29'],
+    'gDay': ['---31Z'], 'dateTimeStamp': ['2000-01-01T12:00:00Z', '2000-01-01T12:00:00-08:00'],
+}
+ADJUST_FN = {'dateTime': 'adjust-dateTime-to-timezone', 'dateTimeStamp': 'adjust-dateTime-to-timezone',
+             'date': 'adjust-date-to-timezone', 'time': 'adjust-time-to-timezone'}
+
+
+def gen_history(rng) -> list:
+    """a history = list of operations on a pool of values; every operation is data, so a history can be
+    replayed and shrunk"""
+    t = rng.choice(['dateTime', 'dateTime', 'date', 'date', 'time', 'time', 'dateTimeStamp', 'gYear', 'gYearMonth',
+                    'gMonth', 'gMonthDay', 'gDay'])
+    ops = [('new', t, rng.choice(HIST_NEW[t]))]
+    n = 1
+    for _ in range(rng.randint(2, 7)):
+        i = rng.randrange(n)
+        r = rng.random()
+        if r < 0.25:
+            ops.append(('hash', i))
+        elif r < 0.50:
+            tz = rng.choice([('dur', rng.choice([0, 60, -60, 120, 330, -30, 840, -840, rng.randint(-840, 840)])),
+                             ('dur', rng.randint(-840, 840)), ('empty',), ('implicit', rng.choice([0, 120, -300, 330]))])
+            ops.append(('adjust', i) + tz); n += 1
+        elif r < 0.62:
+            ops.append(('add', i, rng.choice(['PT1H', '-PT36H', 'P1D', 'PT0S', 'P1M', '-P1Y', 'PT0.5S', 'P400D']))); n += 1
+        elif r < 0.70:
+            ops.append(('copy', i)); n += 1
+        elif r < 0.80:
+            ops.append(('settz', i, rng.choice([None, 0, 120, -30, 330, 840]))); n += 1
+        elif r < 0.90:
+            ops.append(('cast', i, rng.choice(['dateTime', 'date', 'time', 'gYear', 'gYearMonth', 'gMonth', 'gMonthDay',
+                                               'gDay', 'string', 'untypedAtomic']))); n += 1
+        else:
+            ops.append(('cmp', i, rng.randrange(n), rng.choice(['eq', 'lt', 'ge']), rng.choice([None, 0, 120, -300])))
+    return ops
+
+
+def run_history(impl: Impl, ops: list):
+    """execute a history; after every operation check, for every value produced so far,
+    T(str(v)) == v, hash(T(str(v))) == hash(v), set / dict membership both ways, and that earlier values
+    still print as they did.  -> None | (step index, what, details)"""
+    import datetime
+    from copy import copy
+    from elementpath.datatypes import AbstractDateTime, Timezone, DateTime, Date, Time
+    from elementpath.datatypes import DateTimeStamp
+    vals = []      # (value, str at creation)
+    seen = set()   # the set of the history: values hashed so far stay members
+    flags = set()  # trigger predicates of listed findings, computed from the operations
+
+    def tz_of(minutes):
+        return None if minutes is None else Timezone(datetime.timedelta(minutes=minutes))
+
+    def invariant(v):
+        if not isinstance(v, AbstractDateTime):
+            return None
+        T = type(v)
+        sv = str(v)
+        try:
+            w = T.fromstring(sv)
+        except Exception as e:
+            return f'canonical string {sv!r} does not re-parse: {type(e).__name__}'
+        try:
+            if not (w == v and v == w):
+                return f'{T.__name__}({sv!r}) != the value'
+            if hash(w) != hash(v):
+                return f'hash({T.__name__}({sv!r})) != hash(value)'
+            if w not in {v} or v not in {w} or {v: 1}.get(w) != 1 or {w: 1}.get(v) != 1:
+                return f'set/dict lookup of {T.__name__}({sv!r}) fails'
+            if str(w) != sv:
+                return f'canonical string not a fixed point: {str(w)!r} vs {sv!r}'
+        except Exception as e:
+            return 'exception in ==/hash: ' + type(e).__name__
+        return None
+
+    for k, op in enumerate(ops):
+        kind = op[0]
+        try:
+            if kind == 'new':
+                st, v = impl.direct(op[1], op[2], None)
+                if st != 'ok':
+                    return None
+                vals.append((v, str(v)))
+            else:
+                i = op[1]
+                if i >= len(vals):
+                    continue
+                v = vals[i][0]
+                tname = next((n for n, c in (('dateTimeStamp', None),) if False), None)
+                if kind == 'hash':
+                    hash(v); seen.add(v)
+                elif kind == 'copy':
+                    c = copy(v); vals.append((c, str(c)))
+                elif kind == 'settz':
+                    if isinstance(v, DateTimeStamp) and op[2] is None:
+                        continue      # not an operation the library performs on its own
+                    if isinstance(v, AbstractDateTime):
+                        c = copy(v); c.tzinfo = tz_of(op[2]); vals.append((c, str(c)))
+                elif kind == 'adjust':
+                    fn = 'adjust-dateTime-to-timezone' if isinstance(v, DateTime) else \
+                         'adjust-date-to-timezone' if isinstance(v, Date) else \
+                         'adjust-time-to-timezone' if isinstance(v, Time) else None
+                    if fn is None:
+                        continue
+                    if op[2] == 'dur':
+                        m = op[3]
+                        d = ('-' if m < 0 else '') + f'PT{abs(m)}M'
+                        st, r = impl.xpath('31', '1.1', f"{fn}($v, xs:dayTimeDuration('{d}'))", {'v': v})
+                    elif op[2] == 'empty':
+                        if isinstance(v, DateTimeStamp):
+                            flags.add('F10k')     # timezone removed from an xs:dateTimeStamp
+                        st, r = impl.xpath('31', '1.1', f'{fn}($v, ())', {'v': v})
+                    else:
+                        st, r = impl.xpath('31', '1.1', f'{fn}($v)', {'v': v}, timezone=tz_of(op[3]))
+                    if st == 'ok' and isinstance(r, AbstractDateTime):
+                        vals.append((r, str(r)))
+                elif kind == 'add':
+                    dt = 'yearMonthDuration' if op[2].lstrip('-').startswith('P') and 'T' not in op[2] and \
+                        op[2][-1] in 'YM' else 'dayTimeDuration'
+                    st, r = impl.xpath('31', '1.1', f"$v + xs:{dt}('{op[2]}')", {'v': v})
+                    if st == 'ok' and isinstance(r, AbstractDateTime):
+                        vals.append((r, str(r)))
+                elif kind == 'cast':
+                    st, r = impl.xpath('31', '1.1', f'xs:{op[2]}($v)', {'v': v})
+                    if st == 'ok' and isinstance(r, AbstractDateTime):
+                        vals.append((r, str(r)))
+                elif kind == 'cmp':
+                    j = op[2]
+                    if j < len(vals):
+                        impl.xpath('31', '1.1', f'$a {op[3]} $b', {'a': v, 'b': vals[j][0]}, timezone=tz_of(op[4]))
+        except Exception as e:
+            return k, 'exception', f'{type(e).__name__}: {e}', flags
+        for idx, (x, s0) in enumerate(vals):
+            if isinstance(x, AbstractDateTime):
+                try:
+                    if str(x) != s0:
+                        return k, 'operand-mutated', f'value #{idx} printed {s0!r} when created, now {str(x)!r}', flags
+                except Exception as e:
+                    return k, 'exception', f'str(): {type(e).__name__}', flags
+            why = invariant(x)
+            if why is not None:
+                return k, 'canonical-fixed-point-and-hash', f'value #{idx}: {why}', flags
+        for x in list(seen):
+            if x not in seen:
+                return k, 'set-membership-lost', f'a hashed value is no longer found in the set that contains it: {str(x)!r}', flags
+    return None
+
+
+def show_history(ops, upto=None) -> list:
+    out = ['# after every step each value v so far is checked: T(str(v)) == v, equal hash, set/dict lookup (so every '
+           'value has been hashed before the next step)']
+    n = 0
+    for k, op in enumerate(ops if upto is None else ops[:upto + 1]):
+        if op[0] == 'new':
+            out.append(f'v{n} = xs:{op[1]}({op[2]!r})'); n += 1
+        elif op[0] == 'hash':
+            out.append(f'hash(v{op[1]})  # put into a set')
+        elif op[0] == 'copy':
+            out.append(f'v{n} = copy(v{op[1]})'); n += 1
+        elif op[0] == 'settz':
+            out.append(f'v{n} = copy(v{op[1]}); v{n}.tzinfo = {op[2]} min'); n += 1
+        elif op[0] == 'adjust':
+            out.append(f'v{n} = adjust-*-to-timezone(v{op[1]}, {op[2:]})'); n += 1
+        elif op[0] == 'add':
+            out.append(f'v{n} = v{op[1]} + {op[2]}'); n += 1
+        elif op[0] == 'cast':
+            out.append(f'v{n} = xs:{op[2]}(v{op[1]})'); n += 1
+        elif op[0] == 'cmp':
+            out.append(f'v{op[1]} {op[3]} v{op[2]}  # implicit timezone {op[4]}')
+    return out
+
+
+def shrink_history(impl: Impl, ops: list, what: str) -> list:
+    """drop operations while the same kind of failure remains (indices are re-validated by run_history)"""
+    changed = True
+    while changed:
+        changed = False
+        for k in range(len(ops) - 1, 0, -1):
+            cand = ops[:k] + ops[k + 1:]
+            # dropping a value-producing op shifts later indices: keep only candidates whose indices stay in range
+            r = run_history(impl, cand)
+            if r is not None and r[1] == what:
+                ops, changed = cand, True
+                break
+    return ops
+
+
+HIST_CORPUS = [
+    [('new', 'time', '12:00:00'), ('hash', 0), ('adjust', 0, 'dur', 120)],
+    [('new', 'dateTime', '2000-01-01T12:00:00'), ('hash', 0), ('adjust', 0, 'implicit', -300), ('hash', 1)],
+    [('new', 'date', '2000-01-01'), ('hash', 0), ('copy', 0), ('settz', 1, 330)],
+    [('new', 'dateTime', '2000-06-15T08:30:00+05:30'), ('hash', 0), ('adjust', 0, 'empty'), ('adjust', 1, 'dur', -30)],
+    [('new', 'time', '12:00:00'), ('hash', 0), ('cmp', 0, 0, 'eq', 120), ('adjust', 0, 'dur', 0)],
+    [('new', 'dateTime', '2000-01-01T12:00:00'), ('add', 0, 'PT1H'), ('hash', 1), ('adjust', 1, 'dur', 60), ('cast', 2, 'date')],
+]
+
+
+def history_cases(run: Run, impl: Impl) -> None:
+    rng = run.rng
+    st = run.stats
+    hs = [list(h) for h in HIST_CORPUS] + [gen_history(rng) for _ in range(run.scale(700, 8000))]
+    for ops in hs:
+        st.case(['history', ops], nontrivial=len(ops) > 2)
+        for op in ops:
+            st.count('hist:op:' + op[0])
+        r = run_history(impl, ops)
+        if r is None:
+            continue
+        k, what, why, fl = r
+        small = shrink_history(impl, ops[:k + 1], what)
+        r2 = run_history(impl, small) or r
+        run.disagree(Disagreement({'history': show_history(small), 'ops': [list(o) for o in small]},
+                                  impl=r2[2], spec='T(str(v)) == v, equal hash, found in set/dict, operands unchanged',
+                                  tags=sorted(r2[3]),
+                                  what='history:' + what, site='datetime.py AbstractDateTime __hash__/__eq__/tzinfo/copy; '
+                                  'xpath_tokens/base.py adjust_datetime, implicit_timezone_operands'))
+
+
+def mutable_types_scan() -> dict:
+    """ast scan of the datatypes package: classes with __slots__ / property setters, and the places of the library
+    that assign such attributes after construction"""
+    import ast
+    import elementpath
+    base = Path(elementpath.__file__).parent
+    out = {'slots': {}, 'setters': [], 'assignments_outside_init': []}
+    for f in sorted((base / 'datatypes').glob('*.py')):
+        tree = ast.parse(f.read_text())
+        for node in ast.walk(tree):
+            if isinstance(node, ast.ClassDef):
+                for b in node.body:
+                    if isinstance(b, ast.Assign) and any(isinstance(t, ast.Name) and t.id == '__slots__' for t in b.targets):
+                        try:
+                            v = ast.literal_eval(b.value)
+                        except Exception:
+                            v = '?'
+                        if v:
+                            out['slots'][f'{f.name}:{node.name}'] = list(v) if isinstance(v, (tuple, list)) else v
+                    if isinstance(b, ast.FunctionDef):
+                        for d in b.decorator_list:
+                            if isinstance(d, ast.Attribute) and d.attr == 'setter':
+                                out['setters'].append(f'{f.name}:{node.name}.{b.name}')
+    attrs = {'tzinfo', '_dt', '_year', 'months', 'seconds', 'uri', 'qname', 'prefix', 'local_name', 'ordered', 'namespace'}
+    for f in sorted(base.rglob('*.py')):
+        try:
+            tree = ast.parse(f.read_text())
+        except SyntaxError:
+            continue
+        for fn in ast.walk(tree):
+            if isinstance(fn, (ast.FunctionDef, ast.AsyncFunctionDef)) and fn.name != '__init__':
+                for node in ast.walk(fn):
+                    if isinstance(node, (ast.Assign, ast.AugAssign)):
+                        tg = node.targets if isinstance(node, ast.Assign) else [node.target]
+                        for t in tg:
+                            if isinstance(t, ast.Attribute) and t.attr in attrs and \
+                                    not (isinstance(t.value, ast.Name) and t.value.id in ('self', 'cls')):
+                                out['assignments_outside_init'].append(
+                                    f'{f.relative_to(base)}:{node.lineno} {ast.unparse(t)}')
+    return out
+
+
 # ------------------------------------------------------------------------------ translator
 def translate_tables(run: Run) -> dict:
     import re
@@ -1458,6 +1723,7 @@ def search(run: Run):
     binary_cases(sub, impl)
     cast_cases(sub, impl)
     tz_cases(sub, impl)
+    history_cases(sub, impl)
     run.notes.append(f'search: {len(cases)} exhaustive small-scope lexical cases + canon + binary, '
                      f'{len(sub.disagreements)} disagreements')
     return sub.disagreements
@@ -1535,6 +1801,8 @@ def body(run: Run) -> int:
         binary_cases(run, impl)
         cast_cases(run, impl)
         tz_cases(run, impl)
+        history_cases(run, impl)
+        run.stats.extra['mutable_after_construction'] = mutable_types_scan()
         sequence_cases(run, impl)
         matrix_cases(run, impl)
     except DriverError as e:
